@@ -642,10 +642,22 @@ func (j *judgeCtx) checkBarriers() {
 			// a Resume/Restart/Bind from another goroutine that overlaps the barrier call
 			// switches dispatching back on underneath it: the property quantifies over
 			// concurrent barrier callers, not over concurrent resumers
+			// (and once such a pair has raced, what runs afterwards is its leftover: a later Stop
+			// on the then "Stopped" worker returns at once while those jobs still run)
 			resumed := false
 			for _, o := range j.lcalls {
-				if (o.K == opResume || o.K == opRestart || o.K == opBind) && o != c && o.Inv < c.Ret && (o.Ret == 0 || o.Ret > c.Inv) {
-					resumed = true
+				if !(o.K == opResume || o.K == opRestart || o.K == opBind) || o.Inv >= c.Ret {
+					continue
+				}
+				for _, b := range j.lcalls {
+					if b == o || !(b.K == opPauseAndWait || b.K == opStop || b.K == opWaitAndStop || b.K == opPause) || b.Inv >= c.Ret {
+						continue
+					}
+					if o.Inv < b.Ret || b.Ret == 0 {
+						if b.Inv < o.Ret || o.Ret == 0 {
+							resumed = true
+						}
+					}
 				}
 			}
 			if resumed {
